@@ -109,6 +109,21 @@ Theorem C20_row_first_refuted :
 Proof. exact row_first_loses_a_file. Qed.
 Print Assumptions C20_row_first_refuted.
 
+(* 5b. What "rows cover files" buys, with no invariant of the engine assumed (so also in the states the fault paths leave
+       behind): every later selection takes, together with any file, every OLDER file that holds records — a tombstone is
+       never merged away while an older file still holds the value it shadows.  Corollary for the state after a failed
+       fsync with the repaired bookkeeping (theorem 9c). *)
+Theorem C20_rows_make_selection_closed : forall c s sel0, rows_cover (s_dir s) (s_stats s) -> select c s = ROk sel0 ->
+  forall id g, mem id sel0 = true -> has_file (log_of_dir (s_dir s)) g = true -> g <= id -> mem g sel0 = true.
+Proof. exact rows_make_selection_closed. Qed.
+Print Assumptions C20_rows_make_selection_closed.
+
+Theorem C20_selection_closed_after_failed_fsync : forall c s k v s' t sel0, Inv s -> failed_fsync true s k v = ROk (s', t) ->
+  select c s' = ROk sel0 ->
+  forall id g, mem id sel0 = true -> has_file (log_of_dir (s_dir s')) g = true -> g <= id -> mem g sel0 = true.
+Proof. exact selection_closed_after_failed_fsync. Qed.
+Print Assumptions C20_selection_closed_after_failed_fsync.
+
 (* 6. The running process after a failed write.  A put or delete issued in invariant state s fails in its append,
       and [n] creates of the next active file fail on top of that (the engine state is then
       [after_failed_creates s clk n]: index and statistics untouched, `stale` set, `last_fileid` advanced by n).
